@@ -14,6 +14,9 @@ import tempfile
 import time
 
 HERE = os.path.dirname(os.path.dirname(os.path.abspath(__file__)))
+# The code under observation is /repo's working tree.  VERIF_REPO_SRC exists only for the self-test (tools/selftest.py),
+# which points the same checks at a scratch copy carrying a seeded defect; registered commands never set it.
+REPO_SRC = os.environ.get('VERIF_REPO_SRC') or '/repo/src'
 
 
 def load_findings(prop):
@@ -27,7 +30,7 @@ def load_findings(prop):
 
 def spawn(args, out, timeout):
     env = dict(os.environ)
-    env['PYTHONPATH'] = f"/repo/src:{HERE}:{HERE}/.deps"
+    env['PYTHONPATH'] = f"{REPO_SRC}:{HERE}:{HERE}/.deps"
     env['PYTHONHASHSEED'] = '0'
     env['PYTHONDONTWRITEBYTECODE'] = '1'
     cmd = [sys.executable, '-P', '-X', 'faulthandler', '-m', 'vf.worker'] + [str(a) for a in args]
@@ -144,6 +147,7 @@ def run(a, prop, modname, shards, cases, seconds, work, t0):
 
     mod_meta = {}
     try:
+        sys.path.insert(0, REPO_SRC)
         import vf.env  # noqa
         mod = importlib.import_module(modname)
         mod_meta = mod.META[prop]
@@ -232,8 +236,8 @@ def run(a, prop, modname, shards, cases, seconds, work, t0):
             inconclusive.append(f'required counter {name} is zero: the deciding monitor was not reached')
     if evaluations == 0:
         inconclusive.append('no oracle evaluation happened')
-    if envinfo and not envinfo['pjplan_file'].startswith('/repo/'):
-        inconclusive.append(f"pjplan imported from {envinfo['pjplan_file']}, not from /repo")
+    if envinfo and not envinfo['pjplan_file'].startswith(os.path.realpath(REPO_SRC) + '/'):
+        inconclusive.append(f"pjplan imported from {envinfo['pjplan_file']}, not from {REPO_SRC}")
 
     # report
     for e in findings:
